@@ -295,3 +295,7 @@ mod tests {
         assert!(agents.orders == vec![Some(1)]);
     }
 }
+
+#[cfg(any(kani, verif_replay))]
+#[path = "/verif/harness/random_agent_proofs.rs"]
+pub(crate) mod verif_proofs;
